@@ -357,6 +357,11 @@ def run(ctx):
     # applied in part
     raws += [{"id": "joincut-%d" % k, "bytes": "", "stream": True, "joincut": k} for k in range(1, 260)]
 
+    # a peer that connects to the stream port, sends nothing / one byte / the preamble / half a header, and then just stays:
+    # the stream timeout bounds the handler from the moment the connection is accepted
+    for k, hx_ in enumerate(["", "03", "0300", "030081a76e6f64655f6964", "04", "0400"]):
+        raws.append({"id": "hold-%d" % k, "bytes": hx_, "stream": True, "hold": True})
+
     def run_raws(rs):
         """a crash of the whole process is bisected down to the datagram that causes it"""
         o, lg = run_harness(binary, {"mode": "hostile", "raw": rs}, wd, tag="hostile", timeout=600)
@@ -372,7 +377,8 @@ def run(ctx):
     for r, o in zip(raws, routs):
         bad = None
         if o["panic"]: bad = "handler panicked: " + o["panic"]
-        elif o["timeout"]: bad = "handler did not return within 15 s" + (" (the peer sent a valid join and never read the reply: the stream deadline must bound the write too)" if r.get("noread") else "")
+        elif o["timeout"]: bad = "handler did not return within 15 s" + (" (the peer sent a valid join and never read the reply: the stream deadline must bound the write too)" if r.get("noread") else "") \
+            + (" (the peer sent %d byte(s) and then stayed silent without closing; stream timeout 3 s)" % (len(r["bytes"]) // 2) if r.get("hold") else "")
         elif not o["own_same"]: bad = "own published state changed by a received %s" % ("stream" if r["stream"] else "datagram")
         elif r.get("joincut") and o["err"] and o.get("known", 0) > 0:
             bad = "a join request cut after %d of %d bytes was rejected (error, no reply) and yet applied in part: the receiver now knows %d node(s)" % (r["joincut"], o.get("join_len", 0), o["known"])
